@@ -167,6 +167,8 @@ def run(ctx):
     res.rule("LINE", n)
     from rules import hist
     hist.run(ctx, res, 'C16', extra=('rules.histobs', 'text'))       # composition: histories through the public API against the reference model (rules/hist.py)
+    from rules import scale
+    scale.run(ctx, res, 'C16', extra=('rules.histobs', 'text'))      # the same on graphs whose collections have the sizes the tree names (rules/scale.py)
     common.vacuity(res, "HISTORY", 2500)
     common.vacuity(res, "LINE", 100)
     res.analysed = common.analysed(ctx, [FN])
